@@ -122,6 +122,13 @@ def _err_code(ex):
     return -3
 
 
+def _avail(pol):
+    """number of elements a library stream source will be able to produce (-1 for scripted / raising sources)"""
+    if pol.get('src', 'scripted') == 'scripted' or pol.get('raise_at') is not None:
+        return -1
+    return len(pol.get('items', []))
+
+
 def make_app_classes():
     """classes are created lazily so that importing this module does not import rsocket"""
     from reactivestreams.publisher import Publisher
@@ -290,7 +297,7 @@ def make_app_classes():
             pub = self.w.make_source(self.ep, iid, 'resp', pol)
             self.w.interaction(iid)['resp_pub'] = pub
             self.w.rec.log(self.ep, 'app_producer', iid=iid, role='resp', kind=pol.get('src', 'scripted'),
-                           x=0 if pol.get('src', 'scripted') == 'scripted' else 1)
+                           x=0 if pol.get('src', 'scripted') == 'scripted' else 1, n=_avail(pol))
             return pub
 
         async def request_channel(self, payload):
@@ -305,7 +312,7 @@ def make_app_classes():
             it['resp_sub'] = sub
             if pub is not None:
                 self.w.rec.log(self.ep, 'app_producer', iid=iid, role='resp', kind=pol.get('src', 'scripted'),
-                               x=0 if pol.get('src', 'scripted') == 'scripted' else 1)
+                               x=0 if pol.get('src', 'scripted') == 'scripted' else 1, n=_avail(pol))
             return pub, sub
 
         async def on_error(self, error_code, payload):
@@ -822,8 +829,12 @@ class World:
         self.loop.run_ready()
 
     def cut(self, src, how):
-        """cut the direction src->dst"""
+        """'eof': src's outgoing direction ends in an orderly way (the other direction follows when dst closes its transport);
+        'error': the connection is reset - both directions fail at once"""
         self.dirs[src].do_cut(how)
+        if how == 'error':
+            other = 's' if src == 'c' else 'c'
+            self.dirs[other].do_cut(how)
         self.loop.run_ready()
 
     def snapshot(self, label=''):
@@ -871,12 +882,13 @@ class World:
     def new_payload(self, spec):
         return self.payloads.make(*spec)
 
-    def request_response(self, ep, spec, policy=None):
+    def request_response(self, ep, spec, policy=None, probe=False):
         pid, p = self.payloads.make(*spec)
+        self.last_iid = pid
         self.policy[pid] = policy or {}
         it = self.interaction(pid)
         it.update(kind='rr', init=ep, resp_ep='s' if ep == 'c' else 'c')
-        self.rec.log(ep, 'app_request', kind='rr', iid=pid, pid=pid, dl=spec[0], ml=spec[1])
+        self.rec.log(ep, 'app_request', kind='rr', iid=pid, pid=pid, dl=spec[0], ml=spec[1], x=7 if probe else 0)
         fut = self.eps[ep].request_response(p)
         it['future'] = fut
 
@@ -900,6 +912,7 @@ class World:
 
     def fire_and_forget(self, ep, spec, policy=None):
         pid, p = self.payloads.make(*spec)
+        self.last_iid = pid
         self.policy[pid] = policy or {}
         it = self.interaction(pid)
         it.update(kind='fnf', init=ep)
@@ -922,6 +935,7 @@ class World:
 
     def request_stream(self, ep, spec, n0=None, policy=None, subscribe=True, sub_raise_in=None):
         pid, p = self.payloads.make(*spec)
+        self.last_iid = pid
         self.policy[pid] = policy or {}
         it = self.interaction(pid)
         it.update(kind='stream', init=ep, resp_ep='s' if ep == 'c' else 'c')
@@ -940,6 +954,7 @@ class World:
 
     def request_channel(self, ep, spec, n0=None, policy=None, pub=True, pub_policy=None, subscribe=True):
         pid, p = self.payloads.make(*spec)
+        self.last_iid = pid
         self.policy[pid] = policy or {}
         it = self.interaction(pid)
         it.update(kind='channel', init=ep, resp_ep='s' if ep == 'c' else 'c')
@@ -949,7 +964,7 @@ class World:
                      dl=spec[0], ml=spec[1], x=1 if pub else 0)
         if pub:
             src = (pub_policy or {}).get('src', 'scripted')
-            self.rec.log(ep, 'app_producer', iid=pid, role='req', kind=src, x=0 if src == 'scripted' else 1)
+            self.rec.log(ep, 'app_producer', iid=pid, role='req', kind=src, x=0 if src == 'scripted' else 1, n=_avail(pub_policy or {}))
         req = self.eps[ep].request_channel(p, publisher)
         it['requester'] = req
         it['sid'] = req.stream_id
